@@ -41,6 +41,7 @@ type Desc struct {
 	Hops  []Hop    `json:"hops"`  // AS entries
 	Peers [][2]int `json:"peers"` // (1-based AS entry index, peer ingress ifid)
 	Next  int      `json:"next"`  // Next IA of the last AS entry (0 for terminated segments)
+	Bad   []int    `json:"bad"`   // 1-based indices of AS entries signed with the WRONG key
 	// filled by Build
 	ID  []int `json:"id"`  // hex digits of Segment.ID()
 	Exp int   `json:"exp"` // TS + TTL*Unit  (seconds after Base)
@@ -73,17 +74,25 @@ func AbsIA(ia addr.IA) int {
 }
 
 // Key is the fixed signing key (deterministic so that runs are reproducible).
-var Key = func() *ecdsa.PrivateKey {
-	h := sha256.Sum256([]byte("verif-segpool-key"))
+var Key = mkKey("verif-segpool-key")
+
+// BadKey signs the AS entries whose signature must not verify.
+var BadKey = mkKey("verif-segpool-wrong-key")
+
+func mkKey(seed string) *ecdsa.PrivateKey {
+	h := sha256.Sum256([]byte(seed))
 	k, err := ecdsa.ParseRawPrivateKey(elliptic.P256(), h[:])
 	if err != nil {
 		panic(err)
 	}
 	return k
-}()
+}
 
 // Signer signs with Key and a fixed header timestamp.
-type Signer struct{ Timestamp time.Time }
+type Signer struct {
+	Timestamp time.Time
+	Wrong     bool // sign with BadKey
+}
 
 func (s Signer) Sign(ctx context.Context, msg []byte, ad ...[]byte) (*cryptopb.SignedMessage, error) {
 	l := 0
@@ -94,6 +103,9 @@ func (s Signer) Sign(ctx context.Context, msg []byte, ad ...[]byte) (*cryptopb.S
 		SignatureAlgorithm:   signed.ECDSAWithSHA256,
 		AssociatedDataLength: l,
 		Timestamp:            s.Timestamp,
+	}
+	if s.Wrong {
+		return signed.Sign(hdr, msg, BadKey, ad...)
 	}
 	return signed.Sign(hdr, msg, Key, ad...)
 }
@@ -155,7 +167,11 @@ func Build(d *Desc) *seg.PathSegment {
 		if i == n-1 {
 			st = Base.Add(time.Duration(d.SV) * time.Millisecond)
 		}
-		if err := ps.AddASEntry(context.Background(), e, Signer{Timestamp: st}); err != nil {
+		wrong := false
+		for _, b := range d.Bad {
+			wrong = wrong || b == i+1
+		}
+		if err := ps.AddASEntry(context.Background(), e, Signer{Timestamp: st, Wrong: wrong}); err != nil {
 			vt.Fatal("AddASEntry: %v", err)
 		}
 	}
